@@ -42,7 +42,10 @@ def setup(T, NODE, CTX, variant, depth=1, prefix="C03"):
 
 
 def main(S, env):
-    d = S.wrap(S.node.make(env))
+    return judge(S, S.wrap(S.node.make(env)))
+
+
+def judge(S, d):
     st_r, r = call(S.decode, d)
     st_o, o = call(oracle.ref_decode, S.RT, d)
     if st_r == "exc" and S.prefix == "C17":
